@@ -330,7 +330,9 @@ class IntroVisitor(ast.NodeVisitor):
         # This is a bit brute-force (not working for multi-line function calls)
         # but it should be good enough in practice for most cases.
         # TODO: refine it based of the nested parse tree?
-        function_body_hash = dds_hash(self._body_lines[: node.lineno + 1])
+        # The call may span multiple lines: include all of them (its arguments are part of the context)
+        last_lineno = getattr(node, "end_lineno", None) or node.lineno
+        function_body_hash = dds_hash(self._body_lines[: last_lineno + 1])
         # The list of all the previous interactions.
         # This enforces the concept that the current call depends on previous calls.
         function_inters_sig: Optional[PyHash] = dds_hash_commut(
